@@ -48,7 +48,7 @@ m = {
         "kind_free_text": "verification-condition generator for Python (AST of /repo/src re-read on every run -> symbolic executor with ropes, loop invariants, callee contracts -> z3 5.1); sidecar contracts in /verif/contracts",
     }],
     "checks": checks,
-    "notes": "See DESIGN.md. Exit 0 held / 1 violation / 3 checker error. KNOWN_FINDINGS.txt lists repaired defects (13 fix: commits in /repo).",
+    "notes": "See DESIGN.md. Exit 0 held / 1 violation / 3 checker error. KNOWN_FINDINGS.txt lists the 14 repaired defects (fix: commits in /repo); no open finding.",
     "not_applicable": na,
 }
 json.dump(m, open(os.path.join(HERE, "MANIFEST.json"), "w"), indent=1)
